@@ -381,4 +381,73 @@ theorem C19_only_repeat_panics (lib : String → GoFun) (hl : LibSpec lib) (sig 
 example : safeArgs ⟨"repeat", "strings.Repeat", [.str, .int], [0, 1], .str⟩ [.str [97, 98], .int 3] = true := by decide
 example : fitsAll [.str, .str] [.str [97, 44, 98], .str [44]] = true := by decide
 
+/-! ## 5. Sessions: a result stays what it was while later calls run -/
+
+/-- IMPL ⊑ SPEC for sessions: for every sequence of literals and library calls (any
+    functions, any slots, any length), looking at ALL slots at the end of the session in the
+    heap model with the unchanged code's allocation policy (`fresh`: every output in a new
+    buffer) shows exactly the values of the pure Spec. -/
+theorem session_impl_refines_spec (cs : List Call) :
+    (runImpl fresh Mem.empty cs).observe = runSpec [] cs :=
+  runImpl_fresh Mem.empty (by intro k hk; cases hk) cs
+
+/-- RESULTS ARE STABLE: for every session `cs` and every continuation `more`, the slots
+    filled by `cs` show the same values after `more` has run as they did before: no later
+    call changes what an earlier call returned. -/
+theorem session_results_stable (cs more : List Call) :
+    ((runImpl fresh Mem.empty (cs ++ more)).observe).take ((runImpl fresh Mem.empty cs).observe).length
+      = (runImpl fresh Mem.empty cs).observe := by
+  simp only [session_impl_refines_spec, runSpec_append]
+  obtain ⟨ext, h⟩ := runSpec_extends (runSpec [] cs) more
+  rw [h]; simp
+
+/-- ROUND TRIP ACROSS LATER CALLS: for every encoder/decoder pair with the inverse law on
+    the inputs satisfying `P`, every prefix `pre`, every slot `i` holding a `P`-value `b`, and
+    every sequence `mid` of further calls (other encodes with the same codec included): if
+    `enc` is applied to slot `i` and, after `mid`, `dec` is applied to the slot that encode
+    filled, the decode returns `b`. -/
+theorem session_roundtrip (enc : Bytes → Bytes) (dec : Bytes → Option Bytes) (P : Bytes → Prop)
+    (law : ∀ b, P b → dec (enc b) = some b) (pre mid : List Call) (i : Nat) (b : Bytes)
+    (hb : (runSpec [] pre).getD i none = some b) (hP : P b) :
+    (runImpl fresh Mem.empty
+        (pre ++ [.app (fun x => some (enc x)) i] ++ mid ++ [.app dec (runSpec [] pre).length])).observe
+      = (runImpl fresh Mem.empty (pre ++ [.app (fun x => some (enc x)) i] ++ mid)).observe ++ [some b] := by
+  simp only [session_impl_refines_spec, runSpec_append, runSpec, Call.eval, hb]
+  obtain ⟨ext, h⟩ := runSpec_extends (runSpec [] pre ++ [some (enc b)]) mid
+  simp [h, law b hP]
+
+/-- the codec registry (hex, base64, base32, urlquery) in a session -/
+theorem session_codec_roundtrip (c : Codec) (pre mid : List Call) (i : Nat) (b : Bytes)
+    (hb : (runSpec [] pre).getD i none = some b) (hP : IsBytes b) :
+    (runImpl fresh Mem.empty
+        (pre ++ [.app (fun x => some (c.enc x)) i] ++ mid ++ [.app c.dec (runSpec [] pre).length])).observe
+      = (runImpl fresh Mem.empty (pre ++ [.app (fun x => some (c.enc x)) i] ++ mid)).observe ++ [some b] :=
+  session_roundtrip c.enc c.dec IsBytes (codec_roundtrip c) pre mid i b hb hP
+
+/-- gzip in a session, under the library's inverse law -/
+theorem session_gzip_roundtrip (g : GzipLib) (law : ∀ b, g.decompress (g.compress b) = some b)
+    (pre mid : List Call) (i : Nat) (b : Bytes) (hb : (runSpec [] pre).getD i none = some b) :
+    (runImpl fresh Mem.empty
+        (pre ++ [.app (fun x => some (gzipEnc g x)) i] ++ mid ++ [.app (gzipDec g) (runSpec [] pre).length])).observe
+      = (runImpl fresh Mem.empty (pre ++ [.app (fun x => some (gzipEnc g x)) i] ++ mid)).observe ++ [some b] :=
+  session_roundtrip (gzipEnc g) (gzipDec g) (fun _ => True) (fun b _ => law b) pre mid i b hb trivial
+
+/-- SENSITIVITY (why the allocation policy is part of the model): with an output buffer that
+    is reused (`reuse 2`: the cell of the first encode is handed out again), after
+    `a := hex(A); b := hex(B)` slot `a` shows `hex(B)` and `decode(a)` gives `B`, whereas the
+    Spec keeps `hex(A)` in slot `a`, which decodes to `A`. -/
+theorem session_pooled_buffer_breaks :
+    let cs : List Call := [.lit [1], .lit [2], .app (fun b => some (hexEnc b)) 0, .app (fun b => some (hexEnc b)) 1]
+    (runImpl (reuse 2) Mem.empty cs).observe = [some [1], some [2], some [48, 50], some [48, 50]] ∧
+    ((runImpl (reuse 2) Mem.empty cs).read 2).bind hexDec = some [2] ∧
+    runSpec [] cs = [some [1], some [2], some [48, 49], some [48, 50]] ∧
+    ((runSpec [] cs).getD 2 none).bind hexDec = some [1] := by
+  decide
+
+/-- non-vacuity of `session_roundtrip`'s hypotheses: slot 0 of `[lit "hi"]` holds bytes -/
+example : (runSpec [] [.lit [104, 105]]).getD 0 none = some [104, 105] ∧ IsBytes [104, 105] := by
+  constructor
+  · rfl
+  · intro x hx; simp at hx; omega
+
 end Risor.C19
